@@ -12,7 +12,9 @@ EXPLANATION = (
     "Static path rules over the synchronous handlers of aldrin_broker::broker::Broker and the connection task, on rustc MIR. "
     "Decided: (R1) on every path — success and error — of every Broker method the number of insertions into / removals from each registry map "
     "(conns, objs, svcs, channels, bus_listeners) equals the number of increments / decrements of its statistics gauge (a removal that "
-    "returned None is not a removal), so no fallible exit separates a map mutation from its gauge update; (R2) shutdown_connection visits every "
+    "returned None is not a removal), so no fallible exit separates a map mutation from its gauge update; likewise every insertion into objs / channels / "
+    "bus_listeners is paired on that very path with the ownership record in the creating connection's state (add_object / add_sender|add_receiver / add_bus_listener) "
+    "that the teardown later walks; (R2) shutdown_connection visits every "
     "collection field of ConnectionState through its iterator accessor and feeds it to the matching removal helper, and reaches bus-listener, "
     "channel-end (both ends), call-abort and introspection cleanup; (R3) the ShutdownBroker arm queues every connection with send_shutdown=true "
     "and sets shutdown_now, shutdown_connection sends Shutdown only under that flag, the run loop exits only under "
@@ -51,18 +53,39 @@ def run(rep):
 
 def r1(rep, prog, tab, cfg):
     groups = [(g["map"], g["gauge"]) for g in tab["gauge"]]
+    mirrors = [(g["map"], set(g["record"])) for g in tab.get("mirror", [])]
+    rec_names = set(x for (_m, r) in mirrors for x in r)
+
+    def ev_fn(c):
+        e = broker.state_event(c)
+        if e:
+            return e
+        sf = mir.short_fn(c.callee)
+        if sf in rec_names:
+            return [("REC", sf, c.bb)]
+        return None
     meths = broker.methods(prog)
     rep.floor("C09-R1", "Broker methods (%s)" % cfg, len(meths), 50)
     n_mut = 0
+    n_mirror = [0]
     seen_groups = set()
     for name, b in sorted(meths.items()):
         try:
-            paths = broker.event_paths(prog, b, broker.state_event)
+            paths = broker.event_paths(prog, b, ev_fn)
         except sig.PathExplosion:
             rep.fail("C09-R1", b.def_, "paths", "path bound exceeded; rule fails closed", line=b.span)
             continue
         for (toks, shape) in paths:
             ev = broker.cancel_absent(toks)
+            for (m, recs) in mirrors:
+                ins = sum(1 for t in ev if t[0] == "MAP" and t[1] == m and t[2] == "insert")
+                rec = sum(1 for t in ev if t[0] == "REC" and t[1] in recs)
+                if ins or rec:
+                    n_mirror[0] += 1
+                    outcome = "Err" if (shape and shape[0] == "Err") else "Ok/unit"
+                    rep.check(ins == rec, "C09-R1", b.def_, "ownership-record:%s" % m,
+                              "on a path returning %s: %d insert on self.%s but %d ownership record(s) (%s) in the connection: an entry without its record is never cleaned up when the connection ends" % (outcome, ins, m, rec, "/".join(sorted(recs))),
+                              line=b.span, detail={"config": cfg, "outcome": outcome})
             for (m, g) in groups:
                 ins = sum(1 for t in ev if t[0] == "MAP" and t[1] == m and t[2] == "insert")
                 rem = sum(1 for t in ev if t[0] == "MAP" and t[1] == m and t[2] == "remove")
@@ -78,6 +101,7 @@ def r1(rep, prog, tab, cfg):
                               line=b.span, detail={"config": cfg, "outcome": outcome, "events": [list(map(str, t)) for t in ev]})
     rep.floor("C09-R1", "mutating paths (%s)" % cfg, n_mut, 12)
     rep.floor("C09-R1", "gauge groups seen (%s)" % cfg, len(seen_groups), 5)
+    rep.floor("C09-R1", "paths creating an owned entry (%s)" % cfg, n_mirror[0], 4)
     # every gauge assignment writes back into the field it read
     for name, b in meths.items():
         for c in b.calls:
